@@ -123,6 +123,12 @@ def validTableClauses (t : Tab) (n : Nat) (rels subs : List (List Int)) : List (
    ("subgroup-generators-fix-row-0", subgensFix t n subs),
    ("transitive", connected t n)]
 
+/-- the accessors outside the table: `nr_gens()` is the number of generators, and `get` at a
+    row that does not exist (`len`, `usize::MAX`) is `None` (-1) for every letter -/
+def probesOk (n nrGens : Nat) (atLen atMax : List Int) : Bool :=
+  nrGens == n && atLen == (letters n).map (fun _ => (-1 : Int)) &&
+    atMax == (letters n).map (fun _ => (-1 : Int))
+
 /-- coset representatives: exactly one word per row, listed by row, each tracing from
     row 0 to its row -/
 def repsOk (t : Tab) (n : Nat) (reps : List (Nat × List Int)) : Bool :=
